@@ -1,6 +1,8 @@
 use crate::ctx::Ctx;
 
 pub mod c01;
+pub mod c06;
+pub mod c07;
 pub mod c08;
 pub mod c12;
 pub mod c05;
@@ -31,6 +33,8 @@ pub fn run(prop: &str, ctx: &mut Ctx) -> bool {
         "C05" => c05::run(ctx),
         "C12" => c12::run(ctx),
         "C08" => c08::run(ctx),
+        "C07" => c07::run(ctx),
+        "C06" => c06::run(ctx),
         _ => return false,
     }
     true
